@@ -42,17 +42,18 @@ type world struct {
 	builders []*acmelib.CANIDBuilder
 	detached []any
 
-	hasMux     bool
-	ovfBuilder int   // index in builders of the builder with operations past bit 31
-	ovfBuses   []int // buses sharing it
-	resetBuses []int // buses reset to the default builder with SetCANIDBuilder(nil) as the last construction step
-	ifaceBus   []int // per interface: bus index or -1
-	msgBus     []int // per message: bus it is sent on, or -1
-	deep       bool
-	hintOps    int // failing mutators that set and clear an error-context hint
-	buildOps   int
-	buildErr   int
-	desc       string
+	hasMux         bool
+	ovfBuilder     int   // index in builders of the builder with operations past bit 31
+	ovfBuses       []int // buses sharing it
+	resetBuses     []int // buses reset to the default builder with SetCANIDBuilder(nil) as the last construction step
+	ifaceBus       []int // per interface: bus index or -1
+	msgBus         []int // per message: bus it is sent on, or -1
+	deep           bool
+	extremeTimings int // timing values at / beyond the declared bounds of the well-known attributes
+	hintOps        int // failing mutators that set and clear an error-context hint
+	buildOps       int
+	buildErr       int
+	desc           string
 }
 
 func try(w *world, f func() error) (ok bool) {
@@ -271,6 +272,22 @@ func buildWorld(r *rng, idx int, allowMux bool) *world {
 			}
 			if r.chance(30) {
 				m.SetStartDelayTime(1 + r.intn(50))
+			}
+			// timing values AT and BEYOND the declared ranges of the package-level well-known attributes
+			// (GenMsgCycleTime 0..3600000, GenMsgDelayTime 0..1000, GenMsgStartDelayTime 0..100000): the
+			// setters accept anything, the exporters attach the GLOBAL attribute objects to them.  Cycle
+			// times stay powers of two (exact bus-load sums in any order): 2^22, 2^23 > 3600000.
+			if r.chance(22) {
+				m.SetCycleTime([]int{1 << 22, 1 << 23, -8, 1 << 21}[r.intn(4)])
+				w.extremeTimings++
+			}
+			if r.chance(22) {
+				m.SetDelayTime([]int{1000, 1001, 2000, -5, 7200000}[r.intn(5)])
+				w.extremeTimings++
+			}
+			if r.chance(22) {
+				m.SetStartDelayTime([]int{100000, 100001, 200000, -1}[r.intn(4)])
+				w.extremeTimings++
 			}
 			if r.chance(40) {
 				m.SetSendType(acmelib.MessageSendType(r.intn(5)))
